@@ -158,15 +158,15 @@ PROPS.update({
         "technique": "fault enumeration over a memory-limit grid inside a rapid property: differential against an unlimited consumer, errors.Is oracle, recording MeterProvider bound, monotonicity in the limit; the thorough tier adds a coverage-guided native fuzz campaign that feeds the same generator and oracle from the fuzzer's bytes (rapid.MakeFuzz)",
         "level_text": "The injected fault is the memory limit. For every generated stream a grid of limits (0 B .. 70 MiB geometric, values around the need measured per prefix, random extras) is enumerated, each with a fresh limited consumer and a recording MeterProvider: every batch either decodes to the canonical output of the unlimited reference or is refused with errors.Is(err, ErrConsumerMemoryLimit); no panic; the running sum of arrow_memory_inuse never exceeds the limit; the index of the first refused batch is non-decreasing in the limit.",
         "design_ref": "DESIGN.md §7 C14",
-        "rule": "rapid draws options and a 1-6 batch history; about 40 limits are enumerated per stream; evaluations counts streams, label stream_limit_pairs counts (stream, limit) runs; NON-TRIVIAL = the stream was fully decoded under some limits and refused under others; DISTINCT = FNV-64 of (options, batches, #limits refusing, #limits passing)",
+        "rule": "second job: ONE long haul - the same 8 MiB logs batch (no dictionaries, no compression) repeated until more than 4.6 GiB of payloads (past 2^32 bytes) went through one limited consumer, every batch must decode and the published in-use figure must stay within the limit. First job: rapid draws options and a 1-6 batch history; about 40 limits are enumerated per stream; evaluations counts streams, label stream_limit_pairs counts (stream, limit) runs; NON-TRIVIAL = the stream was fully decoded under some limits and refused under others; DISTINCT = FNV-64 of (options, batches, #limits refusing, #limits passing)",
         "assumptions": [
-            "comparison stops at the first refusal of a consumer (reader state is undefined afterwards)",
+            "comparison stops at the first refusal of a consumer (known finding continue-after-refusal: the unchanged tree can panic when a consumer is used again after a refusal; the cut runs are counted as excluded_known and TestKnownC14 probes the specific history)",
             "the producer side runs without limit; batches the producer refuses end the stream",
             "in-use is what the consumer publishes on the supplied MeterProvider, observed at every Add",
         ],
         "jobs": {
-            "quick": [{"test": "TestC14", "shards": 12, "checks": 720, "timeout": 900}],
-            "thorough": [{"test": "TestC14", "shards": 16, "checks": 12000, "timeout": 3300}, {"test": "FuzzRapid", "shards": 1, "checks": 0, "rapid": False, "fuzztime": "150s", "parallel": 6, "timeout": 1500}],
+            "quick": [{"test": "TestC14", "shards": 12, "checks": 720, "timeout": 900}, {"test": "TestC14Haul", "shards": 1, "checks": 1, "timeout": 900, "shrinktime": "1s"}],
+            "thorough": [{"test": "TestC14", "shards": 16, "checks": 12000, "timeout": 3300}, {"test": "TestC14Haul", "shards": 3, "checks": 3, "timeout": 3300, "shrinktime": "1s"}, {"test": "FuzzRapid", "shards": 1, "checks": 0, "rapid": False, "fuzztime": "150s", "parallel": 6, "timeout": 1500}],
         },
     },
     "C16": {
